@@ -68,6 +68,7 @@ impl E {
 }
 
 pub fn regen_content(n: usize, seed: u64) -> Vec<u8> {
+    // (replays of size-boundary cases regenerate the seed-derived payload; the repeating one is found by the same sweep)
     match n {
         70_001 => content_class(4, seed),
         x if x == 3 << 20 => content_class(5, seed),
@@ -126,7 +127,7 @@ fn mname(m: u16) -> &'static str {
 /// write side succeeded (for secondary oracles).
 pub fn check_program(p: &Program, st: &mut Stats, order: u64, part: &str) -> Option<Vec<u8>> {
     st.evals += 1;
-    let case = json!({"kind": "program", "program": p.to_json()});
+    let case = || json!({"kind": "program", "program": p.to_json()});
     let calls_f = p.calls(true);
     let (res_f, bytes_f) = exec(&calls_f, &[]);
     for (c, r) in calls_f.iter().zip(&res_f) {
@@ -134,7 +135,7 @@ pub fn check_program(p: &Program, st: &mut Stats, order: u64, part: &str) -> Opt
             Res::Ok(_) => {}
             Res::Panic(pn) => {
                 st.class("write-panic");
-                st.viol(format!("write/panic/{}/{}", c.opname(), panic_site(pn)), format!("{} panicked: {pn} [{part}]", c.opname()), case, order);
+                st.viol(format!("write/panic/{}/{}", c.opname(), panic_site(pn)), format!("{} panicked: {pn} [{part}]", c.opname()), case(), order);
                 return None;
             }
             Res::Err(e) => {
@@ -143,7 +144,7 @@ pub fn check_program(p: &Program, st: &mut Stats, order: u64, part: &str) -> Opt
                 st.viol(
                     format!("write/valid-call-failed/{}/{}", c.opname(), panic_site(e)),
                     format!("{} returned Err({e}) for a valid program ({}) [{part}]", c.opname(), kinds.join(",")),
-                    case,
+                    case(),
                     order,
                 );
                 return None;
@@ -157,7 +158,7 @@ pub fn check_program(p: &Program, st: &mut Stats, order: u64, part: &str) -> Opt
         st.viol(
             format!("drop/step-failed/{}/{}", c.opname(), r.class()),
             format!("drop variant: {} gave {} [{part}]", c.opname(), r.show()),
-            case,
+            case(),
             order,
         );
         return None;
@@ -167,7 +168,7 @@ pub fn check_program(p: &Program, st: &mut Stats, order: u64, part: &str) -> Opt
         st.viol(
             "finish-vs-drop/bytes-differ",
             format!("finish() produced {} bytes, drop produced {} bytes, contents differ [{part}]", bytes_f.len(), bytes_d.len()),
-            case,
+            case(),
             order,
         );
         return None;
@@ -178,7 +179,7 @@ pub fn check_program(p: &Program, st: &mut Stats, order: u64, part: &str) -> Opt
         Ok(o) => o,
         Err(RErr::Panic(pn)) => {
             st.class("read-panic");
-            st.viol(format!("read/panic/{}", panic_site(&pn)), format!("reader panicked on writer output: {pn} [{part}]"), case, order);
+            st.viol(format!("read/panic/{}", panic_site(&pn)), format!("reader panicked on writer output: {pn} [{part}]"), case(), order);
             return Some(bytes_f);
         }
         Err(RErr::Open(e)) => {
@@ -186,7 +187,7 @@ pub fn check_program(p: &Program, st: &mut Stats, order: u64, part: &str) -> Opt
             st.viol(
                 format!("read/open-failed/{}", panic_site(&e)),
                 format!("reader rejects the writer's output: {e} [{part}]"),
-                case,
+                case(),
                 order,
             );
             return Some(bytes_f);
@@ -197,7 +198,7 @@ pub fn check_program(p: &Program, st: &mut Stats, order: u64, part: &str) -> Opt
             Some(e) => format!("{}:{}", ["file", "dir", "symlink"][e.kind.min(2) as usize], mname(e.expected_method())),
             None => "archive".to_string(),
         };
-        st.viol(format!("readback/{field}/{d}"), format!("{detail} [{part}]"), case.clone(), order);
+        st.viol(format!("readback/{field}/{d}"), format!("{detail} [{part}]"), case(), order);
     };
     let want_comment: &[u8] = p.comment.as_deref().unwrap_or(&[]);
     let mut ok = true;
@@ -478,6 +479,21 @@ pub fn enumerate(thorough: bool, seed: u64, f: &(dyn Fn(&Program, u64, &str, &mu
     total_stats.merge(s);
     bounds.insert("method_level".into(), json!(format!("{} documented (method, level) pairs x {} content classes", ml.len(), n_content)));
 
+    // (4b) content sizes at and around internal buffer boundaries, every method, compressible and not
+    let sizes: Vec<usize> = vec![2, 15, 16, 255, 256, 257, 4095, 4096, 4097, 8191, 8192, 16384, 32767, 32768, 32769, 65535, 65536, 65537, 131071, 131072, 131073, 262144];
+    let nsz = sizes.len();
+    let s = par_for((nsz * 4 * 2) as u64, 1, |i, st| {
+        let i = i as usize;
+        let n = sizes[i % nsz];
+        let m = [0u16, 8, 12, 93][(i / nsz) % 4];
+        let random = i / (nsz * 4) == 1;
+        let content = if random { crate::util::Rng(seed ^ n as u64).bytes(n) } else { (0..n).map(|k| b"abcdefgh"[k % 8]).collect() };
+        let e = E { kind: 0, name: format!("sz{n}"), content, opts: FOpts::m(m) };
+        f(&one(e), (8 << 32) + i as u64, "size-boundaries", st);
+    });
+    total_stats.merge(s);
+    bounds.insert("size_boundaries".into(), json!({"sizes": sizes, "methods": 4, "payloads": ["repeating", "seed-derived incompressible"]}));
+
     // (5) comments at length 0 and 1
     let comments: Vec<Option<Vec<u8>>> = vec![None, Some(vec![]), Some(b"c".to_vec()), Some(vec![b'k'; 65535]), Some("ü☃".as_bytes().to_vec())];
     let base = entry_alphabet(seed, 12);
@@ -541,7 +557,7 @@ pub fn run(args: &Args) -> i32 {
     let thorough = args.tier.thorough();
     ctx.rule = "E-PROD over writer programs: (1) length-1 full product kind x content x name x method/level x large x perm x time; \
         (2) every 9-bit permission value x 3 kinds; (3) every date word x 3 time words and 3 date words x every time word; \
-        (4) every documented method/level pair x every content class; (5) comment variants; (6) all length-2 and length-3 (thorough: 4) \
+        (4) every documented method/level pair x every content class, and 22 content sizes at internal buffer boundaries (255..262144) x every method x {repeating, incompressible}; (5) comment variants; (6) all length-2 and length-3 (thorough: 4) \
         entry lists over reduced alphabets. Each program is executed twice (finish / drop) on the real writer and read back with the real \
         seekable reader; the program is the reference model. distinct_nontrivial = distinct archive byte strings produced (hash set)."
         .into();
